@@ -10,7 +10,7 @@
    what judges the code. *)
 EXTENDS JsRenamer, TraceIO
 VARIABLE l
-dvars == <<l, units, pc, newname, aux, fin>>
+dvars == <<l, units, pc, newname, aux, fin, flag, stack>>
 
 Unit(u) == [par |-> u.par, kind |-> u.kind, ps |-> u.ps, ls |-> ToSet(u.ls), vs |-> ToSet(u.vs), us |-> ToSet(u.us), w |-> u.w]
 UnitsOf(e) == [i \in DOMAIN e.units |-> Unit(e.units[i])]
@@ -29,8 +29,8 @@ NoDrift(e) ==
       ob == {<<e.pairs[i][1], e.pairs[i][2]>> : i \in DOMAIN e.pairs}
   IN \E nn \in Finals(us, a, 1, <<>>) : ob \subseteq PredictedPairs(a, nn)
 
-DInit == l = 1 /\ units = <<>> /\ pc = 0 /\ newname = <<>> /\ aux = <<>> /\ fin = <<>>
-DNext == l <= N /\ l' = l + 1 /\ UNCHANGED <<units, pc, newname, aux, fin>>
+DInit == l = 1 /\ units = <<>> /\ pc = 0 /\ newname = <<>> /\ aux = <<>> /\ fin = <<>> /\ flag = TRUE /\ stack = <<>>
+DNext == l <= N /\ l' = l + 1 /\ UNCHANGED <<units, pc, newname, aux, fin, flag, stack>>
 DSpec == DInit /\ [][DNext]_dvars
 DriftFree == l <= N => (NoDrift(Trace[l]) \/ PrintT(<<"REJECT", l, "DRIFT">>))
 
